@@ -247,7 +247,7 @@ def _diff_facts(side, joined, skip_place, limit=40):
 
 
 class State:
-    __slots__ = ("iv", "rel", "sym", "bottom", "dirty")
+    __slots__ = ("iv", "rel", "sym", "bottom", "dirty", "taint")
 
     def __init__(self):
         self.iv = {}
@@ -255,6 +255,7 @@ class State:
         self.sym = {}
         self.bottom = False
         self.dirty = frozenset()     # places (rooted at parameters) written since function entry
+        self.taint = frozenset()     # terms that may hold a not yet bounded magnitude-source value (C03; empty elsewhere)
 
     def copy(self):
         s = State.__new__(State)
@@ -263,6 +264,7 @@ class State:
         s.sym = dict(self.sym)
         s.bottom = self.bottom
         s.dirty = self.dirty
+        s.taint = self.taint
         return s
 
     def mark_dirty(self, entry):
@@ -421,6 +423,8 @@ class State:
             i = self.val_iv(v)
             if i != FULL:
                 self.iv[("v", place[0], place[1])] = iv_meet(self.iv.get(("v", place[0], place[1]), FULL), i)
+            if self.taint and v[1] in self.taint:
+                self.taint = self.taint | {("v", place[0], place[1])}
 
     def kill(self, place, whole_local=False, keep_len=False):
         """forget facts about the contents of `place` (and everything below / above it).
@@ -440,6 +444,8 @@ class State:
 
         def keep(t):
             return keep_len and t[0] == "len" and term_place(t) == place
+        if self.taint:
+            self.taint = frozenset(t for t in self.taint if not (hit(term_place(t)) and not keep(t)))
         for t in [t for t in self.iv if hit(term_place(t)) and not keep(t)]:
             del self.iv[t]
         for k in [k for k in self.rel if any(hit(term_place(t)) and not keep(t) for t in k)]:
@@ -486,6 +492,8 @@ class State:
                 if hit1(ip):
                     return True
             return False
+        if self.taint:
+            self.taint = frozenset(t for t in self.taint if not hit(term_place(t)))
         for t in [t for t in self.iv if hit(term_place(t))]:
             del self.iv[t]
         for k in [k for k in self.rel if any(hit(term_place(t)) for t in k)]:
@@ -516,6 +524,15 @@ class State:
         for p, v in list(self.sym.items()):
             if under(p, src):
                 self.sym[mv(p)] = v
+        if self.taint:
+            extra = set()
+            for t in self.taint:
+                pl = term_place(t)
+                if under(pl, src):
+                    q = mv(pl)
+                    extra.add((t[0], q[0], q[1]))
+            if extra:
+                self.taint = self.taint | extra
         for t, i in list(self.iv.items()):
             pl = term_place(t)
             if under(pl, src):
@@ -550,6 +567,16 @@ class State:
             return self.copy()
         s = State()
         s.dirty = self.dirty | other.dirty
+        s.taint = self.taint | other.taint
+        # a place that aliases a tainted term on one side only keeps its own taint after the alias is dropped
+        if self.taint or other.taint:
+            extra = set()
+            for side, oth in ((self, other), (other, self)):
+                for p, v in side.sym.items():
+                    if v[0] == "n" and v[1] is not None and v[1] in side.taint and oth.sym.get(p) != v:
+                        extra.add(("v", p[0], p[1]))
+            if extra:
+                s.taint = s.taint | extra
         # sym: keep equal entries; numeric aliases that differ are turned into intervals
         for p, v in self.sym.items():
             w = other.sym.get(p)
@@ -669,6 +696,7 @@ class State:
             return new.copy()
         s = State()
         s.dirty = self.dirty | new.dirty
+        s.taint = self.taint | new.taint
         s.sym = {p: v for p, v in new.sym.items() if self.sym.get(p) == v}
         for t, b in new.iv.items():
             a = self.iv.get(t)
@@ -702,6 +730,8 @@ class State:
         if other.bottom:
             return False
         if not (self.dirty <= other.dirty):
+            return False
+        if not (self.taint <= other.taint):
             return False
         for p, v in other.sym.items():
             if self.sym.get(p) != v:
